@@ -260,7 +260,7 @@ func runC16(c *Ctx) error {
 	for _, p := range lists[1] {
 		expSlice[p+".[]"] = true
 	}
-	fam3 := c.Rep.Family("expansion-scope", "every string-valued key path: value '${VERIF_X}' under a mapping VERIF_X -> ' exp ' must be substituted iff the source passes the field through os.Expand (static table G4), and a '$'-free value must come back as written (list items only trimmed); contents src/dst with and without expand: true; passphrase precedence over all 16 combinations of the four NFPM_*PASSPHRASE variables; non-trivial = every case")
+	fam3 := c.Rep.Family("expansion-scope", "every string-valued key path: value '${VERIF_X}' under a mapping VERIF_X -> ' exp ' must be substituted iff the source passes the field through os.Expand (static table G4), and a '$'-free value must come back as written (list items only trimmed); a substituted value that itself contains '$' must not be expanded again (one pass); contents src/dst with and without expand: true; passphrase precedence over all 16 combinations of the four NFPM_*PASSPHRASE variables; non-trivial = every case")
 	env := map[string]string{"VERIF_X": " exp "}
 	for _, p := range order {
 		if kinds[p] != "string" {
@@ -308,6 +308,27 @@ func runC16(c *Ctx) error {
 					c.Rep.Find(report.Finding{Property: "C16", Family: "expansion-scope", Shape: "dollar-free-value-changed", What: fmt.Sprintf("%s: %q became %q", p, val, g), Input: map[string]any{"path": p, "value": val}})
 				}
 			}
+		}
+	}
+	// exactly one pass: the mapping's own values are data, a '$' inside them is not a reference
+	env2 := map[string]string{"VERIF_Z": "pre $VERIF_Y post", "VERIF_Y": "SECOND"}
+	for _, p := range order {
+		if kinds[p] != "string" || strings.Contains(p, "contents.[]") {
+			continue
+		}
+		cfg, err := parse(docFor(kinds, p, "${VERIF_Z}", -1), env2)
+		fam3.Eval(p+"|single-pass", true)
+		if err != nil {
+			continue
+		}
+		got, ok := getByYamlPath(reflect.ValueOf(cfg), strings.Split(p, "."))
+		if !ok || got.Kind() != reflect.String {
+			continue
+		}
+		if g := got.String(); strings.Contains(g, "SECOND") || (strings.Contains(g, "pre") && !strings.Contains(g, "$VERIF_Y")) {
+			c.Rep.Find(report.Finding{Property: "C16", Family: "expansion-scope", Shape: "value-expanded-twice",
+				What:  fmt.Sprintf("%s: the value ${VERIF_Z} with VERIF_Z=%q, VERIF_Y=%q became %q: the substituted text was expanded again", p, env2["VERIF_Z"], env2["VERIF_Y"], g),
+				Input: map[string]any{"path": p, "value": "${VERIF_Z}", "mapping": env2}})
 		}
 	}
 	// contents opt-in
